@@ -196,7 +196,10 @@ def weave_fn(item_text, opts, spec, loops_spec, hints, log, what):
             if pos == "entry":
                 inserts.append((toks[body_open].end, text, 2))
             elif pos == "exit":
-                inserts.append((toks[body_close].start, text, 2))
+                # rule R10: `{ BODY }` -> `{ let vresult__ = { BODY }; <proof hint>; vresult__ }`
+                # (evaluation order unchanged; an early `return` inside BODY simply does not see the hint)
+                inserts.append((toks[body_open].end, " let vresult__ = {", 3))
+                inserts.append((toks[body_close].start, "};" + text + " vresult__ ", 2))
             elif re.match(r"loop(\d+)\.(top|bottom)$", pos):
                 m = re.match(r"loop(\d+)\.(top|bottom)$", pos)
                 n = int(m.group(1))
